@@ -1,0 +1,14 @@
+//go:build verif
+
+package kinesis
+
+// VerifListShards, when set, supplies the shard listing of the stream instead of
+// a call to Kinesis (verification harnesses only).
+var VerifListShards func(exclusiveStartShardID string) []SourceSplitterShard
+
+func verifListShards(exclusiveStartShardID string) ([]SourceSplitterShard, bool) {
+	if VerifListShards == nil {
+		return nil, false
+	}
+	return VerifListShards(exclusiveStartShardID), true
+}
